@@ -281,16 +281,22 @@ class FileSystem(object):
         path = os.path.normpath(path_sep + path).lstrip(path_sep)
 
         base_path = os.path.abspath(_convert(self.base_path))
-        out_path = os.path.join(base_path, path)
-        assert out_path.startswith(base_path + path_sep)
-        if os.path.islink(out_path):
-            link_target = os.readlink(out_path)
-            # Link can be absolute or relative -> absolute
-            link = os.path.normpath(os.path.join(os.path.dirname(path), link_target))
-            if follow_link:
-                out_path = self.resolve_path(link)
-            else:
-                out_path = link
+        out_path = base_path
+        names = path.split(path_sep) if path else []
+        # Walk the path one component at a time: a symbolic link found on the
+        # way must be interpreted inside the sandbox, never by the host
+        for i, name in enumerate(names):
+            out_path = os.path.join(out_path, name)
+            is_last = (i == len(names) - 1)
+            if os.path.islink(out_path) and (follow_link or not is_last):
+                link_target = os.readlink(out_path)
+                # Link can be absolute or relative -> absolute
+                link = os.path.join(
+                    path_sep, *(names[:i] + [link_target] + names[i + 1:])
+                )
+                return self.resolve_path(link, follow_link=follow_link)
+        assert (out_path == base_path or
+                out_path.startswith(base_path + path_sep))
         return out_path
 
     def get_path_inode(self, real_path):
